@@ -311,7 +311,7 @@ func runC21(c *CaseCtx) {
 
 func init() {
 	register(&Check{
-		ID: "C21", Level: "fault_enumeration",
+		ID: "C21", Level: "fault_enumeration", NoLeakMonitor: true,
 		NCases: func(t string) int { return tier(t, 120, 4000) },
 		Run:    runC21,
 		Rule: "case = one generated record (data entry: empty/long bucket, key, value, all flag/status/ds codes incl. out-of-range ones, timestamps/TTLs/tx ids at 0,1,max; sparse root-index record; bucket meta record), encoded by the library, stored, read back through the library's reader (DataFile.ReadAt in FileIO and MMap, ReadBPTreeRootIdxAt, ReadBucketMeta): all fields must be equal; " +
